@@ -12,11 +12,12 @@
    (C20_full_mutual_targets: the targets are computed exactly as by the one-sided routine; C20_full_mutual_sources /
    C20_inner_structure: every other particle is a left fold of in-place updates), and the same (n + 7) u / (n + 17) u bounds are proved
    for them under the standard model (C20_mutual_error, C20_inner_error) and on the actual binary64 computation
-   (C20_sf_mutual_error, C20_sf_inner_error: SpecFloat instance, same input ranges, up to 2^26 particles).
+   (C20_sf_mutual_error, C20_sf_inner_error: SpecFloat instance, same input ranges, up to 2^26 particles; binary32:
+   C20_sf32_mutual_error, C20_sf32_inner_error, inputs in [2^-18, 2^18], up to 2^11 particles).
    Axioms: classical reals of Coq's standard library (+ Classical_Prop.classic through Flocq). *)
 From Coq Require Import List Reals.
 From Flocq Require Import Core IEEE754.BinarySingleNaN.
-From Tbfmm Require Import Num.P2PDefs Num.P2PReal Num.P2PSF Num.P2PError Num.P2PError32 Num.P2PErrorSum Num.P2PErrorSum32 Num.P2PErrorMutual Num.P2PErrorMutual64.
+From Tbfmm Require Import Num.P2PDefs Num.P2PReal Num.P2PSF Num.P2PError Num.P2PError32 Num.P2PErrorSum Num.P2PErrorSum32 Num.P2PErrorMutual Num.P2PErrorMutual64 Num.P2PErrorMutual32.
 Local Open Scope R_scope.
 
 (* one pair: potential kernel within 5 u, force components within 16 u (relative) *)
@@ -248,3 +249,30 @@ Theorem C20_sf_inner_error : forall (ps : list (part (binary_float 53 1024) * rh
       (partR_of (fst (nth i ps d))) (rhsR_of_sf r).
 Proof. exact sf_inner_error. Qed.
 Print Assumptions C20_sf_inner_error.
+
+(* ---- the same for the float instantiation (binary32, SpecFloat instance `sf_ops 24 128`) ---- *)
+Theorem C20_sf32_mutual_error : forall (srcs tgts : list (part (binary_float 24 128) * rhs (binary_float 24 128))),
+  Forall (fun sr => snd sr = rhs0 _ b32_ops) srcs -> Forall (fun tg => snd tg = rhs0 _ b32_ops) tgts ->
+  Forall (fun sr => Forall (fun tg => b32_inputs_ok18 (fst sr) (fst tg)) tgts) srcs ->
+  (Z.of_nat (length tgts) <= 2 ^ 11)%Z -> (Z.of_nat (length srcs) <= 2 ^ 11)%Z ->
+  let res := full_mutual SpecFloat.spec_float (sf_ops 24 128) (map sf32_pr srcs) (map sf32_pr tgts) in
+  Forall2 (fun sr sr' => fst sr' = sf_part32 (fst sr) /\ rhs_finite_sf (snd sr') /\
+            acc_bound (bpow radix2 (-24)) (map partR32_of (map fst tgts)) (partR32_of (fst sr)) (rhsR_of_sf (snd sr')))
+    srcs (fst res) /\
+  Forall2 (fun tg r' => rhs_finite_sf r' /\
+            acc_bound (bpow radix2 (-24)) (map partR32_of (map fst srcs)) (partR32_of (fst tg)) (rhsR_of_sf r'))
+    tgts (snd res).
+Proof. exact sf32_mutual_error. Qed.
+Print Assumptions C20_sf32_mutual_error.
+
+Theorem C20_sf32_inner_error : forall (ps : list (part (binary_float 24 128) * rhs (binary_float 24 128))) (d : part (binary_float 24 128) * rhs (binary_float 24 128)),
+  ForallOrdPairs (fun a b => b32_inputs_ok18 (fst a) (fst b)) ps ->
+  Forall (fun pr => snd pr = rhs0 _ b32_ops) ps ->
+  (Z.of_nat (length ps) <= 2 ^ 11)%Z ->
+  forall i, (i < length ps)%nat ->
+    let r := nth i (inner SpecFloat.spec_float (sf_ops 24 128) (map sf32_pr ps)) (rhs0 SpecFloat.spec_float (sf_ops 24 128)) in
+    rhs_finite_sf r /\
+    acc_bound (bpow radix2 (-24)) (map partR32_of (map fst (firstn i ps ++ skipn (S i) ps)))
+      (partR32_of (fst (nth i ps d))) (rhsR_of_sf r).
+Proof. exact sf32_inner_error. Qed.
+Print Assumptions C20_sf32_inner_error.
